@@ -64,7 +64,7 @@ def findings():
     probe("scalarmul_device_cpu", "inv(c*A) raises 'device mismatch in Product': inv(ScalarMul) passes device=A.c.device ('cpu' under numpy>=2) while every other operator has device None",
           scal_device, "inv(2. * Dense([[2,1],[1,3]]))")
 
-    def scal_unitary():
+    def scal_annot():
         Q = np.array([[0., 1.], [1., 0.]])
         U2 = 2. * cola.Unitary(ops.Dense(Q))
         wrong = []
@@ -75,9 +75,18 @@ def findings():
                     wrong.append(name)
             except Exception:
                 pass
-        return bool(wrong), f"(2*Unitary(Q)).isa(Unitary)={U2.isa(cola.Unitary)}; wrong inverse with {wrong}"
-    probe("scalar_keeps_annotations", "2*Unitary(Q) is still annotated Unitary (C05) and inv returns its adjoint instead of the inverse", scal_unitary,
-          "inv(2. * Unitary(Dense([[0,1],[1,0]])), alg) for all algorithm classes")
+        # a Sum of two negative multiples of a PSD operator is still annotated PSD: Auto picks Cholesky for a negative definite matrix
+        N = (-2.) * cola.PSD(D) + (-2.) * cola.PSD(D)
+        try:
+            got = np.asarray(inv(N).to_dense())
+            bad = not np.allclose(got, np.linalg.inv(-4 * S))
+            got = got.tolist()
+        except Exception as e:
+            bad, got = True, f"raised {type(e).__name__}: {str(e)[:80]}"
+        return bool(wrong) or bad, f"(-2*PSD(D) + -2*PSD(D)).isa(PSD)={N.isa(cola.PSD)}; inv -> {got}; 2*Unitary(Q): wrong inverse with {wrong}"
+    probe("scalar_keeps_annotations", "a scalar multiple keeps the PSD/Unitary annotation whatever the scalar (C05): inv(-2*PSD(D) + -2*PSD(D)) takes the Cholesky path of Auto "
+          "for a negative definite matrix and fails (LinAlgError / wrong inverse)", scal_annot,
+          "inv((-2.)*PSD(D) + (-2.)*PSD(D)), D=Dense([[2,1],[1,3]])")
 
     def forwarded():
         K = cola.PSD(ops.Kronecker(cola.PSD(D), D))
@@ -110,6 +119,13 @@ def findings():
     probe("inv_gmres_breakdown_continues", "inv(A, GMRES(max_iters <= n)) @ b misses the requested tolerance (or raises LinAlgError) when the Krylov space is exhausted before max_iters, "
           "e.g. an eigenvector right-hand side (C13 flag arnoldi_breakdown_continues seen through inv/solve)", gmres_breakdown,
           "inv(Dense([[2,1,0],[1,3,1],[0,1,4]]), GMRES(max_iters=3, tol=1e-10)) @ [1, 1+sqrt(3), 2+sqrt(3)]")
+
+    def gmres_zero_rhs():
+        X = inv(ops.Dense(np.diag([1., 2., 3.])), cola.linalg.GMRES(max_iters=3))
+        Y = np.asarray(X @ np.array([[1., 0.], [1., 0.], [1., 0.]]))
+        return not np.allclose(Y, np.array([[1., 0.], [.5, 0.], [1 / 3, 0.]])), Y.tolist()
+    probe("inv_gmres_zero_rhs_nan", "inv(A, GMRES()) @ B returns NaN in every column of B that is zero (the residual is normalised by its norm; the solution of A x = 0 is 0)",
+          gmres_zero_rhs, "inv(Dense(diag(1,2,3)), GMRES(max_iters=3)) @ [[1,0],[1,0],[1,0]]")
 
     def unitary_dead():
         Q = np.array([[0., 1.], [1., 0.]])
@@ -159,6 +175,20 @@ def gen_trees(ctx, n_trees, present):
     return out
 
 
+def facts_true(t):
+    """are the annotations the implementation reports on every node true? (independent numpy check; their truth is property C05)"""
+    f = t.get("facts", {})
+    if f.get("psd") or f.get("uni"):
+        D = T.dense(t)
+        if D.shape[0] != D.shape[1]:
+            return False
+        if f.get("psd") and not (np.allclose(D, D.conj().T) and np.linalg.eigvalsh((D + D.conj().T) / 2).min() > -1e-9):
+            return False
+        if f.get("uni") and not np.allclose(D @ D.conj().T, np.eye(D.shape[0])):
+            return False
+    return all(facts_true(x) for x in L.subs(t))
+
+
 def admissible(alg, facts):
     if alg in ("AAuto", "ALU", "AGMRES"):
         return True
@@ -182,6 +212,12 @@ def run_impl(case, rnd):
     k = rnd.choice([1, 2, 3])
     Bg = [[[rnd.randint(-3, 3), rnd.randint(-2, 2) if cplx else 0] for _ in range(k)] for _ in range(n)]
     BLg = [[[rnd.randint(-3, 3), rnd.randint(-2, 2) if cplx else 0] for _ in range(n)] for _ in range(k)]
+    if "inv_gmres_zero_rhs_nan" in case.get("present", ()):   # keep every right-hand-side column / left-hand-side row non-zero
+        for j in range(k):
+            if all(Bg[i][j] == [0, 0] for i in range(n)):
+                Bg[rnd.randrange(n)][j] = [1, 0]
+            if all(v == [0, 0] for v in BLg[j]):
+                BLg[j][rnd.randrange(n)] = [1, 0]
     dt = L.C128 if cplx else L.F64
     B = T.arr(Bg, dt)
     BL = T.arr(BLg, dt)
@@ -286,7 +322,8 @@ def oracle(t, io, o, present):
             if a in o and b_ in o and not np.abs(o[a] - o[b_][:, 0]).max() <= 1e-3 * max(1.0, np.abs(o[b_]).max()):
                 bad.append(a)
         if bad and "TIterGMRES" in o["rty"]:
-            for fl in ("inv_gmres_padding_singular", "inv_gmres_breakdown_continues"):
+            nan = any("nan" in b_ for b_ in bad)
+            for fl in (("inv_gmres_zero_rhs_nan",) if nan else ()) + ("inv_gmres_padding_singular", "inv_gmres_breakdown_continues"):
                 if fl in present:
                     return bad, fl
         return bad, None
@@ -354,12 +391,16 @@ def run(ctx):
     err_hist, type_hist, alg_hist = {}, {}, {}
     n_exact_lu = n_lu = n_exact_ch = n_ch = 0
     oracle_resid = 0.0
+    wrong_ann = 0
     attributed = {}
     for ci, case in enumerate(cases):
         try:
             t, io, obs = run_impl(case, ctx.rng)
         except Exception as e:
             mism.append(dict(oracle_fail=False, case=case, harness_error=f"{type(e).__name__}: {str(e)[:300]}"))
+            continue
+        if "scalar_keeps_annotations" in present and not facts_true(t):
+            wrong_ann += 1   # region of the recorded C05 defect: a false PSD/Unitary annotation misleads the rule selection
             continue
         case["reflected"] = t
         for alg in ALGS:
@@ -443,6 +484,7 @@ def run(ctx):
         extra=dict(trees=len(cases), kind_histogram=kh, algorithm_histogram=alg_hist, outcome_histogram=err_hist, result_head_types=type_hist,
                    families={f: sum(1 for c in cases if c["fam"] == f) for f in ("inv", "psd", "psd_undecl", "uni")},
                    complex_trees=sum(1 for c in cases if c["cplx"]),
+                   skipped_false_annotations=wrong_ann,
                    values_compared_in_coq=sum(1 for (_, _, _, o) in meta if o.get("num_in_coq")),
                    structure_only_in_coq=sum(1 for (_, _, _, o) in meta if o.get("ok") and not o.get("num_in_coq")),
                    lapack_lu_calls=n_lu, lapack_lu_exact=n_exact_lu, lapack_cholesky_calls=n_ch, lapack_cholesky_exact=n_exact_ch,
